@@ -866,6 +866,9 @@ TRANSCRIBED_CODE = {
 }
 
 
+LOADER_DIGEST = "f45eb06e555316ba15eb0fd7767e768806bba2f799646315ca382503234e2728"
+
+
 def check_transcribed_code(core_src):
     import hashlib
     path = os.path.join(core_src, "hugr", "validate.rs")
@@ -873,6 +876,18 @@ def check_transcribed_code(core_src):
            and impl_header(it)[2].startswith("ValidationContext")]
     ms = methods(one(ctx, "impl ValidationContext in " + path).body, path, lenient=True)["fn"]
     out = []
+    # the loader: `impl TryFrom<SerHugrLatest> for Hugr` (node i of the document = node i, every node gets the ports of its
+    # operation, a missing offset = OpType::other_port) — what Validity.v's `resolve` and rule 0 / 5 transcribe
+    spath = os.path.join(core_src, "hugr", "serialize.rs")
+    ld = [it for it in load(spath) if it.kind == "impl" and impl_header(it)[1:] == ("TryFrom < SerHugrLatest >", "Hugr")]
+    lms = methods(one(ld, "impl TryFrom<SerHugrLatest> for Hugr").body, spath, lenient=True)["fn"]
+    if "try_from" not in lms:
+        fail("%s: loader try_from not found", spath)
+    got = hashlib.sha256(flat(lms["try_from"][1]).encode()).hexdigest()
+    if got != LOADER_DIGEST:
+        fail("%s: the loader (TryFrom<SerHugrLatest> for Hugr) is no longer the code coq/model/Validity.v transcribes "
+             "(sha256 of its tokens %s, transcribed %s)", spath, got, LOADER_DIGEST)
+    out.append(("serialize.try_from", got))
     for name, want in TRANSCRIBED_CODE.items():
         if name not in ms or ms[name][1] is None:
             fail("%s: ValidationContext::%s not found", path, name)
@@ -1240,7 +1255,7 @@ def signature_tables(sc, has_sig, dfparent):
 
 # ------------------------------------------------------------------------------------------------ Coq text
 def q(s):
-    if not re.match(r"^[A-Za-z0-9_.]*$", s):
+    if not re.match(r"^[A-Za-z0-9_.#]*$", s):
         fail("unprintable name %r", s)
     return '"%s"' % s
 
